@@ -252,6 +252,9 @@ impl WriteBatch for Batch {
         st.group_sizes.push(self.consumed);
         drop(st);
         qbice_verif_rt::events::event("memkv_commit");
+        if std::env::var("VH_TRACE").is_ok() {
+            eprintln!("  [memkv] commit");
+        }
     }
 
     fn should_write_more(&self) -> bool {
@@ -310,9 +313,15 @@ impl KvDatabase for MemKv {
                 .get(&(W::STABLE_TYPE_ID.as_u128(), wkey::<W, C>(&self.plugin, key)))
                 .cloned()
         };
+        if std::env::var("VH_TRACE").is_ok() {
+            eprintln!("  [memkv] read wide -> {:?} (suspending)", v.as_ref().map(|b| b.len()));
+        }
         // the value was read from the store *before* this point: a write
         // that commits while the reader is suspended here is not seen
         io_point(&self.st);
+        if std::env::var("VH_TRACE").is_ok() {
+            eprintln!("  [memkv] read wide resumes");
+        }
         v.map(|b| {
             PostcardDecoder::new(std::io::Cursor::new(b))
                 .decode::<C>(&self.plugin)
